@@ -44,7 +44,9 @@ ASSUMPTIONS = [
     'discriminating custom recognisers; a custom recogniser above '
     'auto-recognised subclasses; Union/Optional over their members, incl. a '
     'Union one of whose members is ambiguous in itself; a chain whose '
-    'middle class is abstract only by inheritance; Unions of built-in '
+    'middle class is abstract only by inheritance; three concrete levels '
+    'whose two leaves accept the same nodes; a Union with a List member '
+    'and tagged sequences (load level); Unions of built-in '
     'scalars with an enum, a Path, a UserString (scalar documents)',
     'documents: a mapping with any subset of the hierarchy\'s keys, each '
     'value a scalar with a FREE tag, top-level tag FREE (any string of '
@@ -82,6 +84,31 @@ class IL(IM):
         return 0
 
 
+# three levels, all concrete: the two leaves accept the same nodes (their
+# extra parameters are optional), and so do their ancestors
+class TA:
+    def __init__(self, a: int) -> None:
+        self.a = a
+
+
+class TM(TA):
+    def __init__(self, a: int, m: int) -> None:
+        super().__init__(a)
+        self.m = m
+
+
+class TL1(TM):
+    def __init__(self, a: int, m: int, l: int = 0) -> None:     # noqa: E741
+        super().__init__(a, m)
+        self.l = l                                              # noqa: E741
+
+
+class TL2(TM):
+    def __init__(self, a: int, m: int, k: int = 0) -> None:
+        super().__init__(a, m)
+        self.k = k
+
+
 # name -> (expected type, registered classes (canonical order), keys,
 #          value tag each key needs)
 H = [
@@ -103,6 +130,7 @@ H = [
      [Shape, Circle, Square, Ellipse, zoo.Other],
      ['center', 'radius', 'width', 'ratio']),
     ('inherited_abstract', IA, [IA, IM, IL], ['a', 'm', 'l']),
+    ('deep_ambiguous', TA, [TA, TM, TL1, TL2], ['a', 'm', 'l', 'k']),
     ('union_inherited_abstract', Union[IM, zoo.Other], [IA, IM, IL, zoo.Other],
      ['a', 'm', 'l']),
     # scalar positions where a built-in and a class written as a string
@@ -254,6 +282,8 @@ _PERM_MODELS = [
     ('path_str', Union[int, str, pathlib.Path], []),
     ('ustr_str', Union[float, zoo.UStr, str], [zoo.UStr]),
     ('inherited_abstract', Union[IA, zoo.Other], [IA, IM, IL, zoo.Other]),
+    ('list_union', Union[List[float], Circle, int], [Shape, Circle, Square]),
+    ('deep_ambiguous', Union[TA, str], [TA, TM, TL1, TL2]),
     ('fan_union', Union[Circle, Square, int], [Shape, Circle, Square,
                                                Ellipse]),
     ('chain_union', Union[HC, HA, str], [HA, HB, HC]),
@@ -299,6 +329,21 @@ _LDOCS = [
                         (scalar(T_STR, 'l'), scalar(T_INT, '3'))], tag=t),
      lambda t: mapping([(scalar(T_STR, 'a'), scalar(T_INT, '1'))], tag=t),
      lambda t: mapping([(scalar(T_STR, 'center'), seq([]))], tag=t)],
+    # list_union: a SEQUENCE that carries the tag
+    [lambda t: seq([scalar(T_FLOAT, '1.0'), scalar(T_FLOAT, '2.0')], tag=t),
+     lambda t: seq([], tag=t),
+     lambda t: mapping([(scalar(T_STR, 'center'), seq([])),
+                        (scalar(T_STR, 'radius'), scalar(T_FLOAT, '1.0'))],
+                       tag=t),
+     lambda t: seq([scalar(T_STR, 'x')], tag=t)],
+    # deep_ambiguous
+    [lambda t: mapping([(scalar(T_STR, 'a'), scalar(T_INT, '1')),
+                        (scalar(T_STR, 'm'), scalar(T_INT, '2'))], tag=t),
+     lambda t: mapping([(scalar(T_STR, 'a'), scalar(T_INT, '1')),
+                        (scalar(T_STR, 'm'), scalar(T_INT, '2')),
+                        (scalar(T_STR, 'k'), scalar(T_INT, '3'))], tag=t),
+     lambda t: mapping([(scalar(T_STR, 'a'), scalar(T_INT, '1'))], tag=t),
+     lambda t: scalar(T_STR, 's')],
     # fan_union
     [lambda t: mapping([(scalar(T_STR, 'center'), seq([])),
                         (scalar(T_STR, 'radius'), scalar(T_FLOAT, '1.0'))],
@@ -331,7 +376,7 @@ _LDOCS = [
 ]
 _TOPTAGS = [T_MAP, '!Circle', '!Ellipse', '!Square', '!Shape', '!HA', '!HC',
             '!HB', '!DD', '!DB', '!DA', '!Zz', '!Color', T_STR, '!IM', '!IL',
-            '!UStr', '!Other']
+            '!UStr', '!Other', T_SEQ, '!TM', '!TL1', '!TL2', '!TA']
 
 
 def _sig(loader, tree):
@@ -375,7 +420,7 @@ def _order(m, d, tt, variant):
 
 def order(m: int, d: int, tt: int, variant: int) -> bool:
     """
-    pre: 0 <= m < 8 and 0 <= d < 4 and 0 <= tt < 18 and 0 <= variant < 30
+    pre: 0 <= m < 10 and 0 <= d < 4 and 0 <= tt < 23 and 0 <= variant < 30
     post: __return__
     """
     s = slice_no(-1)
@@ -387,10 +432,10 @@ def order(m: int, d: int, tt: int, variant: int) -> bool:
 
 def order_reach(m: int, d: int, tt: int, variant: int) -> bool:
     """
-    pre: 0 <= m < 8 and 0 <= d < 4 and 0 <= tt < 18 and 0 <= variant < 30
+    pre: 0 <= m < 10 and 0 <= d < 4 and 0 <= tt < 23 and 0 <= variant < 30
     post: __return__
     """
-    if m != 4 or d != 0 or tt != 2:
+    if m != 6 or d != 0 or tt != 2:
         return True
     r = _order(m, d, tt, variant)
     return not (r and variant == 7)
@@ -412,8 +457,8 @@ CONDITIONS = [
     {'fn': 'recognizer_reach', 'slices': [6], 'quick': 60, 'thorough': 60,
      'expect': 'REFUTED',
      'bound': 'reachability twin: !Ellipse disambiguates {center, radius}'},
-    {'fn': 'order', 'slices': list(range(32)), 'quick': 110, 'thorough': 400,
-     'bound': 'load level: 8 models x <= 4 documents x 18 top-level tags x '
+    {'fn': 'order', 'slices': list(range(40)), 'quick': 110, 'thorough': 400,
+     'bound': 'load level: 10 models x <= 4 documents x 23 top-level tags x '
               'every permutation of the Union members (canonical '
               'registration order) and every permutation of the registered '
               'classes (canonical Union order), up to 29 load functions per '
